@@ -51,6 +51,8 @@ def rec(lst, fmt, obj, what, detail="", cat=None):
         group += "@values-below-1e-99"
     elif "title-of-blanks" in obj:
         group += "@title-of-blanks"
+    elif obj in ("default-atom-names,n=100", "bfactor-needs-seven-characters", "ghost-atom") or "float-nelec" in obj:
+        group += "@" + obj.split(",")[-1] if "float-nelec" in obj else "@" + obj.split(",")[0]
     elif m and max(int(m.group(1)), int(m.group(2))) >= 100:
         group += "@100-or-more-atoms-or-bonds"
     if len([1 for f in lst if f["group"] == group]) < 3:
@@ -106,6 +108,13 @@ def objects_for(fmt):
         if fmt == "xyz":
             atnums, coords, _ = molecule(5)
             out.append(("optional-absent", IOData(atnums=atnums, atcoords=coords), 1e-9))
+        if fmt == "pdb":
+            # default atom names (no attypes given) of 100 two-letter elements: 'Cl100' needs five characters
+            n100 = 100
+            out.append(("default-atom-names,n=100", IOData(atnums=np.full(n100, 17), atcoords=rng.uniform(-9, 9, size=(n100, 3)), title="cl"), 1e-3))
+            # a temperature factor that needs seven characters, on an atom named CA (alpha carbon)
+            bb = IOData(atnums=[7, 6, 6, 8], atcoords=rng.uniform(-9, 9, size=(4, 3)), title="ala", atffparams={"attypes": np.array(["N", "CA", "C", "O"]), "restypes": np.array(["ALA"] * 4), "resnums": np.array([1] * 4)}, extra={"occupancies": np.ones(4), "bfactors": np.array([10.0, 1250.0, 12.0, 13.0]), "chainids": np.array(["A"] * 4)})
+            out.append(("bfactor-needs-seven-characters", bb, 1e-3))
         # a title made of blanks only (a legitimate single-line title)
         atnums, coords, _ = molecule(2)
         kwb = dict(atnums=atnums, atcoords=coords, title="   ")
@@ -120,6 +129,8 @@ def objects_for(fmt):
             tails.flat[1::3] = [-8.25e-100, 7.5e-100, -3.0e-120][: len(tails.flat[1::3])] + [0.0] * max(0, len(tails.flat[1::3]) - 3)
             out.append((f"shape={shape},values-below-1e-99", IOData(atnums=atnums, atcoords=coords, title="cube", cube=Cube(origin=np.zeros(3), axes=np.eye(3) * 0.3, data=tails)), 2e-5))
             out.append((f"shape={shape}", IOData(atnums=atnums, atcoords=coords, atcorenums=atnums.astype(float) - 0.5, title="cube", cube=Cube(origin=np.array([0.1, -0.2, 0.3]), axes=np.array([[0.2, 0.01, 0.0], [0.0, 0.3, 0.02], [0.03, 0.0, 0.4]]), data=data)), 2e-5))
+            if shape == (2, 2, 2):
+                out.append(("ghost-atom", IOData(atnums=atnums, atcoords=coords, atcorenums=np.array([0.0, *atnums[1:].astype(float)]), title="cube", cube=Cube(origin=np.zeros(3), axes=np.eye(3) * 0.3, data=data)), 2e-5))
             out.append((f"shape={shape},fortran-order", IOData(atnums=atnums, atcoords=coords, title="cube", cube=Cube(origin=np.zeros(3), axes=np.eye(3) * 0.3, data=np.asfortranarray(data))), 2e-5))
             out.append((f"shape={shape},transposed-view", IOData(atnums=atnums, atcoords=coords, title="cube", cube=Cube(origin=np.zeros(3), axes=np.eye(3) * 0.3, data=np.ascontiguousarray(data.transpose(2, 1, 0)).transpose(2, 1, 0))), 2e-5))
     if fmt == "fcidump":
@@ -136,6 +147,8 @@ def objects_for(fmt):
                             if two[i, j, k, l] == 0:
                                 set_four_index_element(two, i, j, k, l, float(rng.normal()))
             out.append((f"norb={n}", IOData(one_ints={"core_mo": one}, two_ints={"two_mo": two}, core_energy=1.5, nelec=2, spinpol=0), 1e-12))
+            # nelec and spinpol are documented as floats
+            out.append((f"norb={n},float-nelec", IOData(one_ints={"core_mo": one}, two_ints={"two_mo": two}, core_energy=1.5, nelec=2.0, spinpol=0.0), 1e-12))
     return out
 
 
